@@ -146,8 +146,8 @@ Proof.
         intros [] s' Hs. apply wp_ret. apply HS; [exact Hs|reflexivity|reflexivity| |reflexivity| | |right; reflexivity].
         -- pose proof (cap_to_buckets_ge4 _ _ EB). apply hb_ok_empty; [lia|right; exact EL].
         -- cbn [hb_empty hgl hB]. apply bcap_cap_to_buckets; [lia|exact EB].
-        -- unfold cap_to_buckets in EB. destruct (N.ltb_spec cap 4); [unfold usize_max; lia|].
-           destruct (N.ltb_spec cap 8); [unfold usize_max; lia|].
+        -- unfold cap_to_buckets in EB. pose proof usize_max_big; pose proof isize_lt_usize. destruct (N.ltb_spec cap 4); [lia|].
+           destruct (N.ltb_spec cap 8); [lia|].
            destruct (N.ltb_spec usize_max (cap * 8)); [discriminate|]. lia.
       * destruct fallible; [apply wp_ret; auto|apply wp_unwind; auto].
     + destruct fallible; [apply wp_ret; auto|apply wp_unwind; auto].
@@ -241,6 +241,20 @@ Proof.
   - apply hb_put_spec; [exact Hok|exact Hnone| |].
     + intros ->. cbn in Eg. destruct (N.eqb_spec (hgl t) 0); [discriminate|lia].
     + intros t' H1 H2 H3 H4 H5 H6. apply HQ; [exact Hs1|exact H1|exact H2|exact H4|intros _; auto].
+Qed.
+
+(* with room left, hashbrown's growing insert does not grow (and so cannot call the hasher) *)
+Lemma hb_insert_room_spec t e (Q : hb -> st -> Prop) (U : panic -> st -> Prop) s :
+  hb_ok ES t -> hel t !! ek e = None -> 0 < hgl t ->
+  (forall t' s', s_rt s' = s_rt s -> hb_ok ES t' -> hel t' = <[ek e := e]> (hel t) -> hn t' = hn t + 1 ->
+                 hB t' = hB t -> hgl t' <= hgl t -> hgl t <= hgl t' + 1 -> Q t' s') ->
+  wp (hb_insert c t e) Q U s.
+Proof.
+  intros Hok Hnone Hgl HQ. unfold hb_insert. rewrite Hnone.
+  apply wp_bind. apply take_bit_rt. intros b s1 Hs1.
+  destruct (N.eqb_spec (hgl t) 0) as [Hz|Hz]; [lia|]. rewrite Bool.andb_false_r.
+  apply hb_put_spec; [exact Hok|exact Hnone|intros _; exact Hgl|].
+  intros t' H1 H2 H3 H4 H5 H6. apply HQ; assumption.
 Qed.
 
 Lemma hb_remove_spec t k e (Q : elem * hb -> st -> Prop) (U : panic -> st -> Prop) s :
@@ -912,6 +926,147 @@ Proof.
   - intros s2 Hs2. apply HU; rewrite Hs2, Hs1.
     + split; [exact HR|]. split; [exact Hok|]. cbn [main lo]. destruct lo1 as [o|]; [|exact I]. apply Ho1.
     + exact Habs1.
+Qed.
+
+
+(* ---------------------------------------------------------------- carry_all and reserve *)
+
+Definition carry_all_Q (r r' : rt) : Prop :=
+  Inv R ES r' /\ rt_abs r' = rt_abs r /\ lo r' = None /\ hB (main r') = hB (main r) /\
+  hgl (main r') <= hgl (main r) /\
+  match lo r with
+  | Some o => hn (main r') = hn (main r) + ocnt o /\ hgl (main r) <= hgl (main r') + ocnt o
+  | None => False
+  end.
+
+Lemma carry_all_loop_spec fuel : forall s o,
+  Inv R ES (s_rt s) -> lo (s_rt s) = Some o -> ocnt o < N.of_nat fuel ->
+  wp (carry_all_loop c fuel) (fun _ s' => carry_all_Q (s_rt s) (s_rt s')) (carry_U (s_rt s)) s.
+Proof.
+  induction fuel as [|fuel IH]; intros s o HI Hlo Hfuel; [lia|].
+  pose proof HI as (HR & Hok & Ho). rewrite Hlo in Ho.
+  cbn [carry_all_loop]. destruct (s_rt s) as [t lo0] eqn:Ert. cbn [lo main] in *. subst lo0.
+  destruct o as [B l i n]. destruct Ho as (Hit & Hc & Hnd & Hdis & Hneed). unfold olen in *. cbn [oit orem ocnt] in *.
+  apply wp_bind. unfold old_pop. wp_steps. rewrite Ert. cbn [lo oit orem oB ocnt].
+  destruct (N.eqb_spec i 0) as [Hi|Hi].
+  - apply wp_ret. apply free_old_spec. intros s' Hs'. rewrite Ert in Hs'. cbn [main] in Hs'.
+    assert (Hnil : l = []) by (destruct l; [reflexivity|cbn [length] in Hc; lia]). subst l.
+    unfold carry_all_Q. rewrite Hs'. cbn [main lo ocnt].
+    split; [split; [exact HR|split; [exact Hok|exact I]]|]. split; [reflexivity|]. repeat split; lia.
+  - destruct l as [|e l]; [cbn [length] in Hc; lia|].
+    wp_steps. cbn [set_rt s_rt]. rewrite Ert. cbn [main].
+    set (s1 := set_rt (RT t (Some (Old B l (i - 1) (n - 1)))) s).
+    apply frame0_use; [apply frame0_tick|]. intros [] s2 Hs2.
+    assert (Hnd' : NoDup (map ek l)) by (cbn in Hnd; apply NoDup_cons in Hnd; tauto).
+    assert (He : hel t !! ek e = None) by (apply Hdis; left).
+    assert (Hel : forall x, x ∈ l -> ek x <> ek e).
+    { intros x Hx Heq. cbn in Hnd. apply NoDup_cons in Hnd as [Hnin _]. apply Hnin.
+      rewrite <- Heq. apply elem_of_list_fmap. exists x. auto. }
+    assert (Hn1 : n = (n - 1) + 1 /\ n - 1 = N.of_nat (length l)) by (cbn [length] in Hc; lia).
+    destruct Hn1 as [Hn1 Hc'].
+    pose proof (need_pred n R HR ltac:(lia)) as Hpred.
+    pose proof (need_ge1 (n - 1) R HR) as Hge1.
+    assert (Hgl1 : 0 < hgl t) by lia.
+    apply wp_bind. apply wp_on_unwind. eapply frameU_use; [apply frame_tick_hash| |].
+    + intros [] s3 Hs3. apply wp_bind. unfold main_insert. wp_steps.
+      rewrite Hs3, Hs2. cbn [s1 set_rt s_rt main].
+      apply hb_insert_room_spec; [exact Hok|exact He|exact Hgl1|].
+      intros t' s4 Hs4 Hok' Hel' Hn' HB' Hle Hge.
+      wp_steps. cbn [set_rt s_rt]. rewrite Hs4, Hs3, Hs2. cbn [s1 set_rt s_rt main lo].
+      set (s5 := set_rt _ s4).
+      eapply wp_conseq; [apply (IH s5 (Old B l (i - 1) (n - 1)))| |].
+      * cbn [s5 set_rt s_rt]. split; [exact HR|]. split; [exact Hok'|]. cbn [lo main].
+        split; [cbn [oit ocnt olen]; unfold olen; cbn [ocnt]; lia|]. split; [exact Hc'|]. split; [exact Hnd'|].
+        split; [|unfold olen; cbn [ocnt]; lia].
+        intros x Hx. rewrite Hel'.
+        rewrite lookup_insert_ne by (apply not_eq_sym, Hel; exact Hx). apply Hdis. right. exact Hx.
+      * reflexivity.
+      * cbn [ocnt]. lia.
+      * intros [] s6 HQ. unfold carry_all_Q in *. cbn [s5 set_rt s_rt main lo ocnt] in HQ.
+        destruct HQ as (HI6 & Habs6 & Hlo6 & HB6 & Hgl6 & Hn6 & Hgl6').
+        split; [exact HI6|]. split.
+        { rewrite Habs6. destruct t' as [B' g' n' m']. cbn in Hel', HB'. subst m' B'. apply abs_pop. exact He. }
+        cbn [main lo ocnt]. repeat split; try assumption; try lia; congruence.
+      * intros p s6 (HI6 & -> & Hsub). split; [exact HI6|]. split; [reflexivity|].
+        etransitivity; [exact Hsub|]. cbn [s5 set_rt s_rt].
+        destruct t' as [B' g' n' m']. cbn in Hel', HB'. subst m' B'.
+        rewrite (abs_pop t B e l g' n' (i - 1) (n - 1) i n) by exact He. reflexivity.
+    + intros p s3 Hs3 ->. apply frame0_use; [apply frame0_drop_elem|]. intros [] s4 Hs4.
+      unfold carry_U. rewrite Hs4, Hs3, Hs2. cbn [s1 set_rt s_rt].
+      split.
+      { split; [exact HR|]. split; [exact Hok|]. cbn [lo main].
+        split; [cbn [oit ocnt olen]; unfold olen; cbn [ocnt]; lia|]. split; [exact Hc'|]. split; [exact Hnd'|].
+        split; [intros x Hx; apply Hdis; right; exact Hx|unfold olen; cbn [ocnt]; lia]. }
+      split; [reflexivity|].
+      unfold rt_abs. cbn [main lo orem]. rewrite list_to_emap_cons.
+      apply map_union_mono_l. apply insert_subseteq.
+      rewrite list_to_emap_lookup by exact Hnd'.
+      destruct (lookup_list (ek e) l) as [x|] eqn:Ex; [|reflexivity].
+      apply lookup_list_Some in Ex as [Hx Hk]. exfalso. eapply Hel; eauto.
+Qed.
+
+
+Lemma rt_carry_all_spec s o :
+  Inv R ES (s_rt s) -> lo (s_rt s) = Some o ->
+  wp (rt_carry_all c) (fun _ s' => carry_all_Q (s_rt s) (s_rt s')) (carry_U (s_rt s)) s.
+Proof.
+  intros HI Hlo. unfold rt_carry_all. wp_steps. rewrite Hlo.
+  apply (carry_all_loop_spec _ s o); [exact HI|exact Hlo|].
+  destruct HI as (_ & _ & Ho). rewrite Hlo in Ho. destruct Ho as (Hit & _). unfold olen in Hit. lia.
+Qed.
+
+(* reserve / try_reserve.  Ok(()) means: the next [additional] insertions of new keys fit *)
+Definition reserve_post (r : rt) (additional : N) (r' : rt) : Prop :=
+  Inv R ES r' /\ rt_abs r' = rt_abs r /\
+  match lo r' with
+  | Some o' => ocnt o' + additional < hgl (main r') \/ need (ocnt o') R + additional <= hgl (main r')
+  | None => additional <= hgl (main r')
+  end.
+
+Definition reserve_U (r : rt) (p : panic) (s' : st) : Prop :=
+  Inv R ES (s_rt s') /\ (p = PUser \/ p = PCapOverflow) /\ rt_abs (s_rt s') ⊆ rt_abs r /\
+  (p = PCapOverflow -> rt_abs (s_rt s') = rt_abs r).
+
+Lemma rt_reserve_spec fallible additional (Q : bool -> st -> Prop) (U : panic -> st -> Prop) s :
+  Inv R ES (s_rt s) -> additional <= usize_max ->
+  (forall s', reserve_post (s_rt s) additional (s_rt s') -> Q true s') ->
+  (forall s', fallible = true -> Inv R ES (s_rt s') -> rt_abs (s_rt s') = rt_abs (s_rt s) -> Q false s') ->
+  (forall p s', reserve_U (s_rt s) p s' -> (p = PCapOverflow -> fallible = false) -> U p s') ->
+  wp (rt_reserve c fallible additional) Q U s.
+Proof.
+  intros HI Hadd HT HF HU. pose proof HI as (HR & Hok & Ho). unfold rt_reserve. wp_steps.
+  pose proof (hb_ok_gl_bound _ _ Hok) as [Hglb Hnb].
+  set (on := match lo (s_rt s) with Some o => olen o | None => 0 end).
+  destruct (N.ltb_spec (sat_add on additional) (hgl (main (s_rt s)))) as [Hfit|Hnofit].
+  - (* fits without resizing *)
+    apply wp_ret. apply HT. unfold reserve_post. split; [exact HI|]. split; [reflexivity|].
+    assert (Hns : sat_add on additional = on + additional).
+    { pose proof isize_lt_usize. unfold sat_add in *. lia. }
+    unfold on in *. destruct (lo (s_rt s)) as [o|]; unfold olen in *; [left|]; lia.
+  - (* finish the pending move, then grow *)
+    assert (Hgrow : forall s1, Inv R ES (s_rt s1) -> lo (s_rt s1) = None -> rt_abs (s_rt s1) = rt_abs (s_rt s) ->
+              wp (if fallible then rt_try_grow c true additional else bind (rt_grow c additional) (fun _ => ret true)) Q U s1).
+    { intros s1 HI1 Hlo1 Habs1. destruct fallible.
+      - apply rt_try_grow_spec; [exact HI1|exact Hlo1| | |].
+        + intros s2 (HI2 & Habs2 & _ & _ & _ & Hsum & Hl0 & Hl1). apply HT. split; [exact HI2|]. split; [congruence|].
+          destruct (N.eq_dec (hn (main (s_rt s1))) 0) as [Hz|Hz].
+          * rewrite (Hl0 Hz). lia.
+          * destruct Hl1 as (o2 & -> & Hc2 & _); [lia|]. right. rewrite Hc2. rewrite need_pos by lia. lia.
+        + intros s2 _ Hs2. apply HF; [reflexivity|rewrite Hs2; exact HI1|rewrite Hs2; exact Habs1].
+        + discriminate.
+      - apply wp_bind. apply rt_grow_spec; [exact HI1|exact Hlo1| |].
+        + intros s2 (HI2 & Habs2 & _ & _ & _ & Hsum & Hl0 & Hl1). apply wp_ret. apply HT. split; [exact HI2|]. split; [congruence|].
+          destruct (N.eq_dec (hn (main (s_rt s1))) 0) as [Hz|Hz].
+          * rewrite (Hl0 Hz). lia.
+          * destruct Hl1 as (o2 & -> & Hc2 & _); [lia|]. right. rewrite Hc2. rewrite need_pos by lia. lia.
+        + intros s2 Hs2. apply HU; [|reflexivity]. split; [rewrite Hs2; exact HI1|]. split; [right; reflexivity|].
+          split; [rewrite Hs2, Habs1; reflexivity|intros _; rewrite Hs2; exact Habs1]. }
+    destruct (lo (s_rt s)) as [o|] eqn:Hlo; cbn [is_some_b when].
+    + apply wp_bind. eapply wp_conseq; [apply (rt_carry_all_spec s o HI Hlo)| |].
+      * intros [] s1 (HI1 & Habs1 & Hlo1 & _). apply Hgrow; assumption.
+      * intros p s1 (HI1 & -> & Hsub). apply HU; [|discriminate]. split; [exact HI1|]. split; [left; reflexivity|].
+        split; [exact Hsub|discriminate].
+    + apply wp_bind. apply wp_ret. apply Hgrow; [exact HI|exact Hlo|reflexivity].
 Qed.
 
 End Proofs.
